@@ -349,7 +349,8 @@ def run_config(cfg):
                 # cancelled) must not depend on memory addresses: hash = f(configured hash, role)
                 counter[0] += 1
                 if info[1] >= 0:
-                    vh = (cfg["jobs"][info[1]].get("hash", 0) * 131 + info[1] * 7 +
+                    jd = cfg["jobs"][info[1]]
+                    vh = (jd.get("hash", 0) * 131 + jd.get("uid", info[1]) * 7 +
                           {"body": 1, "shut": 3, "root": 5}[info[0]]) * 2654435761 % (1 << 31)
                 else:
                     vh = (counter[0] * 40503 + 11) % (1 << 31)
